@@ -392,6 +392,9 @@ class Component( ComponentLevel7 ):
             if other not in removed_connectables and other not in removed_consts:
               top._dsl.all_adjacency[other].remove( x )
               if isinstance( other, Const ):
+                # The constant is saved by value and re-created when the
+                # connection is added back, so the old Const object goes
+                del top._dsl.all_adjacency[other]
                 other = other._dsl.const
               saved_connections.append( (other, "top"+repr(x)[1:]) ) # other is from outside
           del top._dsl.all_adjacency[x]
@@ -402,6 +405,9 @@ class Component( ComponentLevel7 ):
             # other must be in the dict
             if other not in removed_connectables:
               parent._dsl.adjacency[other].remove( x )
+              if isinstance( other, Const ):
+                del parent._dsl.adjacency[other]
+                parent._dsl.consts.remove( other )
           del parent._dsl.adjacency[x]
 
       for x in removed_components:
@@ -413,6 +419,9 @@ class Component( ComponentLevel7 ):
         x._dsl.full_name = "<deleted>"+x._dsl.full_name
       for y in removed_consts:
         del y._dsl.parent_obj
+        # Constants of the removed components are keys of all_adjacency
+        if y in top._dsl.all_adjacency:
+          del top._dsl.all_adjacency[y]
 
       # We don't break nets anymore. Instead, we set the flags to true so
       # that the next get_xxx_net will immediately recollect nets.
